@@ -185,8 +185,6 @@ Section Pipeline.
 End Pipeline.
 Arguments AWrite {Res Part} sp.
 Arguments AStore {Res Part} r.
-Arguments rs_bufs {_}.
-Arguments rs_claims {_}.
 
 (* ------------------------------------------------------------------ 5. tasks and the queue order *)
 Record task := mk_task {
